@@ -1,4 +1,5 @@
 import Failsafe.Exec
+import Failsafe.Lemmas.ExecBodiesLink
 /-!
 # C11 — cache: a hit skips everything inside it; only cacheable results are stored
 
@@ -102,5 +103,71 @@ theorem stored_lookup (r : Run) (id : Nat) (k : String) (v : Int) (hid : id < r.
 
 example : lookup { w := { caches := [[("k1", 5)]] }, script := [] } 0 "k1" = some 5 := by decide
 example : lookup { w := { caches := [[("k1", 5)]] }, script := [], ctxKey := some "" } 0 "k1" = none := by decide
+
+/-! ## On the regenerated bodies of the cache executor
+
+`ExecBodies.cachePre / cachePost / getCacheKey` are the reference definitions the bodies of `PreExecute`, `PostExecute` and
+`getCacheKey` — regenerated from the source on every run — are proved equal to (`Tie/XCache.lean`); `cache_link` shows that the
+model's cache layer computes them. -/
+section kernel
+open Failsafe.ExecBodies
+
+/-- **a string under `CacheKey` in the context wins over the configured key, even when it is empty**; any other value does not -/
+theorem kernel_key_precedence (key : String) :
+    (∀ k, getCacheKey ⟨key, some (.str k), some (), some (), some ()⟩ = k) ∧
+    getCacheKey ⟨key, some .other, some (), some (), some ()⟩ = key ∧ getCacheKey ⟨key, none, some (), some (), some ()⟩ = key :=
+  ⟨fun _ => rfl, rfl, rfl⟩
+
+/-- **a hit**: exactly when the effective key is not empty and the cache holds it; the result is the cached value, no error, final
+and a success; otherwise `PreExecute` lets the execution through (and `OnCacheMiss` fires, also without a key) -/
+theorem kernel_hit_iff (c : CCfg) (s : CSt) :
+    (cachePre c s).1 = (if getCacheKey c != "" then (cacheGet s (getCacheKey c)).map (fun v => ⟨v, none, true, true, true⟩) else none) ∧
+    (cachePre c s).2.entries = s.entries := by
+  unfold cachePre
+  simp only []
+  split <;> rename_i h
+  · constructor
+    · split at h <;> simp_all
+    · split <;> rfl
+  · constructor
+    · split at h <;> simp_all
+    · split <;> rfl
+
+/-- **a store**: exactly when the result is cacheable (no conditions and no error, or some condition applies) and the effective key
+is not empty; the inner result is returned untouched either way -/
+theorem kernel_store_iff (c : CCfg) (s : CSt) (n : Nat) (ca : Bool) (er : PR) :
+    (cachePost c s n ca er).1 = er ∧
+    (cachePost c s n ca er).2.entries =
+      (if ((n == 0 && er.err.isNone) || ca) && getCacheKey c != "" then (getCacheKey c, er.val) :: s.entries.filter (·.1 != getCacheKey c)
+       else s.entries) := by
+  unfold cachePost
+  simp only []
+  split
+  · exact ⟨rfl, by split <;> rfl⟩
+  · exact ⟨rfl, rfl⟩
+
+/-- without a key there is no read and no write -/
+theorem kernel_no_key_no_io (c : CCfg) (s : CSt) (n : Nat) (ca : Bool) (er : PR) (h : getCacheKey c = "") :
+    (cachePre c s).1 = none ∧ (cachePost c s n ca er).2.entries = s.entries := by
+  constructor
+  · rw [(kernel_hit_iff c s).1]; simp [h]
+  · rw [(kernel_store_iff c s n ca er).2]; simp [h]
+
+/-- **the composition model's cache layer is the code's** -/
+theorem model_cache_layer_is_the_codes (fuel pos id : Nat) (key : String) (cif : List Nat) (inner : Layer) (r : Run) :
+    applyPolicy fuel pos (.cache id key cif) inner r =
+      (let c := Failsafe.Lemmas.ExecBodiesLink.cacheCfg r key
+       match (ExecBodies.cachePre c ⟨(r.w.caches[id]?).getD [], []⟩).1 with
+       | some hit => some (hit, r.emit "ca.onHit" pos)
+       | none =>
+         match inner (r.emit "ca.onMiss" pos) with
+         | none => none
+         | some (res, r2) =>
+           let post := ExecBodies.cachePost c ⟨(r2.w.caches[id]?).getD [], []⟩ cif.length (cif.any (fun p => predicate p res.outcome)) res
+           some (post.1, if post.2.log = [] then r2
+                         else ({ r2 with w := { r2.w with caches := r2.w.caches.set id post.2.entries } }).emit "ca.onCache" pos)) :=
+  Failsafe.Lemmas.ExecBodiesLink.cache_link fuel pos id key cif inner r
+
+end kernel
 
 end Failsafe.Props.C11
